@@ -17,9 +17,9 @@ CHECKS.update({
  "C06": dict(technique="Coq proof (induction over loop iterations, arbitrary efficiency oracle) at exact reals + vm_compute over all n<=4096 at binary64; model tied to the code by bit-exact oracle replay of real SMC runs",
   text="Theorems: temperatures strictly increasing in (0,1], one per iteration, last one exactly 1 unless the step cap stopped the run, cap never exceeded, explicit termination bound and no error for every valid option record and EVERY efficiency oracle (= every population); fixed schedule of n steps takes exactly n iterations (exact reals, and binary64 for all n<=4096 and any oracle). The model is one Gallina source executed at binary64 against recorded runs (every determine_beta query and result bit-exact) and proved at R.",
   note=SMC_NOTE, ref="DESIGN.md section 5 C06"),
- "C07": dict(technique="Coq proof about the bisection of determine_beta for an arbitrary efficiency curve + translated ESS/log-weight kernels; bit-exact replay of every determine_beta call; mpmath recomputation of ESS at beta and beta+tol on stored populations",
-  text="Theorems: the bisection returns a bracket [a,bb] of width <= tol with efficiency(a) >= target in force and efficiency(bb) < target (or a=1); the temperature taken is max(bracket step, beta_prev+min_step) clamped to 1 - the floor is the only way to exceed it; if efficiency is non-increasing nothing beyond bb is admissible; the efficiency the code uses is ESS of the incremental weights (translated kernels), invariant under the normalising shift.",
-  note=SMC_NOTE + " The monotonicity of the real ESS curve in the temperature is a hypothesis of the maximality theorem (checked numerically, not proved).", ref="DESIGN.md section 5 C07"),
+ "C07": dict(technique="Coq proof about the bisection of determine_beta for an arbitrary efficiency curve + translated ESS/log-weight kernels; bit-exact replay of every determine_beta call; mpmath recomputation of ESS at beta and beta+tol on stored populations; Coquelicot proof (is_derive, MVT) that the code's efficiency curve is non-increasing in the temperature",
+  text="Theorems: the bisection returns a bracket [a,bb] of width <= tol with efficiency(a) >= target in force and efficiency(bb) < target (or a=1); the temperature taken is max(bracket step, beta_prev+min_step) clamped to 1 - the floor is the only way to exceed it; if efficiency is non-increasing nothing beyond bb is admissible, and the efficiency the code queries (translated effective_sample_size(log_weights(b))/N) IS non-increasing in b for every population (C07_code_curve_nonincreasing / C07_code_curve_maximal: tilted means ordered by Cauchy-Schwarz); the efficiency the code uses is ESS of the incremental weights (translated kernels), invariant under the normalising shift.",
+  note=SMC_NOTE + " The monotonicity of the ESS curve is proved over exact reals for the translated kernels and probed on the implementation (binary64 populations, relative slack 1e-7).", ref="DESIGN.md section 5 C07"),
  "C08": dict(technique="Coq proof by induction over the loop for any numeric instance (reals and binary64) and any oracle + translated ratio kernels; oracle replay; mpmath recomputation from stored populations; metamorphic run pairs",
   text="Theorems: log_evidence = fold-sum of ratio(pop_{t-1}, beta_t) over exactly the recorded iterations, error = sqrt of the summed variances, for every run of the model; independence from checkpoint options and the final enlargement (equal evidence for option records differing only there); each ratio is ln of the mean incremental weight (translated kernel).",
   note=SMC_NOTE, ref="DESIGN.md section 5 C08"),
@@ -27,7 +27,7 @@ CHECKS.update({
   text="Theorem C11_resume_equals_uninterrupted: for every payload a run emits (any iteration, or the forced final one) the resumed run returns exactly the uninterrupted output and a suffix of the checkpoint sequence - for every oracle and valid option record. The search resumes real runs from every (quick: sampled) payload through each route and from faults injected at user-call k and demands bit-identical results.",
   note=SMC_NOTE + " Pickle/HDF5 are identity oracles in the model (C12/C13 cover them); EmceeSMC excluded from bit-exact comparison (emcee's generator is unseeded by construction).", ref="DESIGN.md section 5 C11"),
  "C12": dict(technique="Coq proof of the checkpoint cadence of the loop model (any numeric instance) and of byte-exact blob replacement (Model/Blob.v); oracle replay of callback sequences; fault injection on real HDF5 files",
-  text="Theorems: callback invocations of a T-iteration run are exactly the iterations with every>0 and i mod every = 0, plus one forced final payload; each payload is the current loop state; write_blob old new = new for all sizes. The search interrupts real Aspire runs at user-call k and checks the file holds config, flow and byte-for-byte the last emitted payload, loadable.",
+  text="Theorems: callback invocations of a T-iteration run are exactly the iterations with every>0 and i mod every = 0, plus one forced final payload; each payload is the current loop state; write_blob old new = new for all sizes; after any prefix of the run's checkpoint writes the dataset is byte for byte the last payload of that prefix and always one whole payload (file_after). The search interrupts under one cadence and resumes under another, and interrupts real Aspire runs at user-call k and checks the file holds config, flow and byte-for-byte the last emitted payload, loadable.",
   note=SMC_NOTE + " h5py dataset semantics are modelled (Model/Blob.v) and compared with real files; process-kill atomicity of HDF5 is outside the model.", ref="DESIGN.md section 5 C12"),
  "C18": dict(technique="Coq proof (inductive faithful-record relation over the loop, any numeric instance, any oracle) + C11 for resumed runs; oracle replay; mpmath recomputation of every recorded value from neighbouring stored populations",
   text="Theorems: every series has one entry per iteration; stored populations = initial :: population after each iteration; beta/ESS/ESS-at-1/ratio/variance/target entries equal their definitions on the neighbouring stored population; the same for resumed runs. The acceptance series is refuted (one extra entry with n_final_samples) and recorded as a known finding with a partial theorem.",
